@@ -748,8 +748,17 @@ peg::parser! {
             }
 
         pub(crate) rule brace_sequence_expr() -> BraceExpressionMember =
-            start:number() ".." end:number() increment:(".." n:number() { n })? {
-                BraceExpressionMember::NumberSequence { start, end, increment: increment.unwrap_or(1) }
+            start:number() ".." end:number() increment:(".." n:number() { n })? {?
+                // N.B. Like bash, refuse a sequence with more elements than fit an int: the
+                // braces are then left as they are instead of exhausting memory.
+                let increment = increment.unwrap_or(1);
+                let step = i128::from(increment.unsigned_abs().max(1));
+                let count = (i128::from(end) - i128::from(start)).abs() / step + 1;
+                if count > i128::from(i32::MAX) - 2 {
+                    return Err("sequence too long");
+                }
+
+                Ok(BraceExpressionMember::NumberSequence { start, end, increment })
             } /
             start:character() ".." end:character() increment:(".." n:number() { n })? {
                 BraceExpressionMember::CharSequence { start, end, increment: increment.unwrap_or(1) }
